@@ -16,7 +16,7 @@
 From Coq Require Import ZArith List Bool Ascii String Lia.
 From Hermes Require Import Num DateModel.
 Import ListNotations.
-Open Scope Z_scope.
+Local Open Scope Z_scope.
 
 Notation "'let?' x ':=' e 'in' k" := (match e with Some x => k | None => None end)
   (at level 200, x pattern, e at level 100, k at level 200, right associativity).
